@@ -83,8 +83,11 @@ pub struct Ctx {
     pub nworkers: usize,
     /// Private scratch directory of this worker (on tmpfs); removed by the parent afterwards.
     pub scratch: PathBuf,
-    /// Strict mode (replay): no known-finding exclusion, no tolerated panics.
+    /// Strict mode: no known-finding exclusion (recorded reproductions of known findings).
     pub strict: bool,
+    /// True when one saved case is being re-executed (checks that do not own the schedule repeat
+    /// the case several times).
+    pub replay: bool,
 }
 
 impl Ctx {
@@ -594,6 +597,7 @@ pub fn main_with(checks: Vec<Check>, extra: &[(&str, ExtraCmd)]) -> ! {
                 scratch: PathBuf::from(&args[7]),
                 // tooling only: search without known-finding exclusions to obtain reproductions
                 strict: std::env::var("VERIF_STRICT").is_ok(),
+                replay: false,
             };
             run_worker(check, &ctx)
         }
@@ -680,6 +684,7 @@ fn run_replay(checks: &[Check], file: &Path, print: bool, force_strict: bool) ->
         nworkers: 1,
         scratch: scratch.clone(),
         strict: rf.strict || force_strict,
+        replay: true,
     };
     let out = part.replay(&ctx, &rf.case);
     let _ = std::fs::remove_dir_all(scratch_base());
